@@ -17,6 +17,7 @@ from mc import env  # noqa: F401
 from mc.kernel import Unit
 
 import io
+import struct
 import os
 
 from fontTools.ttLib import TTFont, TTCollection, TTLibError
@@ -594,15 +595,36 @@ def trunc_lengths(n, every_below):
     return sorted(s)
 
 
+def ttc_shared_tables(data):
+    """{tag: (offset, length, [member indices])} for the tables of a collection that two or more
+    members point at (same offset and length in their directories); struct only."""
+    h = cont.ttc_header(data)
+    if h is None:
+        return {}
+    _v, offs, _end, _dsig = h
+    where = {}
+    for i, o in enumerate(offs):
+        if len(data) < o + 12:
+            return {}
+        ntab = struct.unpack(">H", data[o + 4 : o + 6])[0]
+        for k in range(ntab):
+            e = o + 12 + 16 * k
+            tag, _cs, toff, tlen = struct.unpack(">4sLLL", data[e : e + 16])
+            where.setdefault((tag.decode("latin-1"), toff, tlen), []).append(i)
+    return {tag: (toff, tlen, m) for (tag, toff, tlen), m in where.items() if len(m) > 1 and tlen > 0}
+
+
 class Undecodable(Unit):
     name = "E3-undecodable"
     rule = ("every table of every plain-sfnt corpus font below the size bound (quick 4 kB non-AOTS plus one AOTS font chosen by the seed; thorough 16 kB; tables deduplicated by (tag, payload)): payload truncated to every length (tables <= 512 B (quick 128); else 0..64, 2^k-1..2^k+1, len-16..len-1), every single bit flipped in the first 64 B (quick 16), payload replaced by 4 x 0xFF; "
-            "font rebuilt by an independent sfnt writer, opened with ignoreDecompileErrors=True: font[tag] never raises; when it is the DefaultTable fallback, save() succeeds and the saved file holds exactly the damaged bytes for that table and the original bytes for every table never loaded; distinct = each (font, tag, damage)")
-    required_witnesses = ("fallback to DefaultTable taken", "damaged table still decodes", "fallback saved byte-exact", "untouched tables unchanged")
+            "font rebuilt by an independent sfnt writer, opened with ignoreDecompileErrors=True: font[tag] never raises; when it is the DefaultTable fallback, save() succeeds and the saved file holds exactly the damaged bytes for that table and the original bytes for every table never loaded; plus every table shared by several members of a corpus collection damaged in place (12 patterns) x shareTables {True, False} x both access orders: every member sees the same outcome, a fallback holds exactly the damaged bytes; distinct = each (font, tag, damage)")
+    required_witnesses = ("fallback to DefaultTable taken", "damaged table still decodes", "fallback saved byte-exact", "untouched tables unchanged",
+                          "collection: shared damaged table fell back in every member")
     chunk = 1
 
     def setup(self, tier, seed):
         self.fonts = {n: d for n, d in corpus.binary_files() if cont.kind_of(d) == "sfnt" and len(d) < MEDIUM}
+        self.ttcs = {n: d for n, d in corpus.binary_files() if cont.kind_of(d) == "ttc" and len(d) < MEDIUM}
         self.limit = 4 if tier == "quick" else 10
         self.seed = seed
         preload()
@@ -647,11 +669,66 @@ class Undecodable(Unit):
             ds = self.damages(n, tier)
             for i in range(0, len(ds), 64):
                 yield [name, tag, ds[i : i + 64]]
+        # collections: every table stored once and used by several members, damaged in place
+        for name, data in sorted(self.ttcs.items()):
+            for tag, (off, length, members) in sorted(ttc_shared_tables(data).items()):
+                yield ["ttc", name, tag, off, length, members]
+
+    def check_ttc(self, case, rec):
+        """A damaged table that several members of a collection share: with and without the shared
+        table cache, in both orders of access, every member must see the same thing - the decoded
+        table, or the raw-bytes fallback holding exactly the damaged bytes."""
+        from fontTools.ttLib.tables.DefaultTable import DefaultTable
+
+        _k, name, tag, off, length, members = case
+        data = self.ttcs[name]
+        dmg = [("ff", b"\xff" * length), ("zero", b"\0" * length), ("head-ff", b"\xff" * min(4, length) + data[off + min(4, length) : off + length]),
+               ("tail-ff", data[off : off + length - min(4, length)] + b"\xff" * min(4, length))]
+        dmg += [("bit%d" % b, bytes([data[off] ^ (0x80 >> b)]) + data[off + 1 : off + length]) for b in range(8)] if length else []
+        n = 0
+        for label, payload in dmg:
+            bad = data[:off] + payload + data[off + length :]
+            for share in (True, False):
+                for order in (list(members), list(reversed(members))):
+                    n += 1
+                    sub = ["ttc", name, tag, label, share, order]
+                    try:
+                        with time_limit(self.limit):
+                            coll = TTCollection(io.BytesIO(bad), shareTables=share, ignoreDecompileErrors=True)
+                            seen = []
+                            for i in order:
+                                try:
+                                    t = coll.fonts[i][tag]
+                                except Exception as e:
+                                    rec.violation("ttc:font[tag]:%s:%s@%s" % (tag.strip(), exc_name(e), site_of(e)), "member %d: font[%r] raised %s although ignoreDecompileErrors=True\n%s" % (i, tag, exc_name(e), tb_tail(e)), case=sub)
+                                    seen = None
+                                    break
+                                seen.append((i, type(t) is DefaultTable, t))
+                    except Alarm:
+                        rec.count("undecided: no answer within the time limit (%s)" % tag.strip())
+                        continue
+                    if not seen:
+                        continue
+                    kinds = {fb for _i, fb, _t in seen}
+                    if len(kinds) > 1:
+                        rec.violation("ttc:members-disagree:%s" % tag.strip(), "shareTables=%s order %s, table %r damaged (%s): fallback taken per member: %s" % (share, order, tag, label, [(i, fb) for i, fb, _t in seen]), case=sub)
+                        continue
+                    if True in kinds:
+                        rec.witness("collection: shared damaged table fell back in every member")
+                        for i, _fb, t in seen:
+                            if t.data != payload:
+                                rec.violation("ttc:fallback-not-byte-exact:%s" % tag.strip(), "member %d keeps %d raw bytes that differ from the damaged payload" % (i, len(t.data)), case=sub, observed=t.data[:48], expected=payload[:48])
+                    else:
+                        rec.witness("collection: shared damaged table still decodes")
+        rec.evals(max(0, n - 1))
+        rec.nontrivial_n(len(dmg))
 
     def check(self, case, rec):
         _limits()
         from fontTools.ttLib.tables.DefaultTable import DefaultTable
 
+        if case[0] == "ttc":
+            return self.check_ttc(case, rec)
         name, tag, ds = case
         data = self.fonts[name]
         ref = cont.ref_sfnt(data)
@@ -1091,10 +1168,10 @@ KNOWN = b"C20 destination file: these bytes must survive a failed save.\n" * 3
 
 class SaveCrash(Unit):
     name = "E6-save-crash"
-    rule = ("every face of every corpus font below the size bound (quick 4 kB non-AOTS incl. the WOFF/WOFF2/TTC files + one AOTS font chosen by the seed; thorough 16 kB) x every table tag T x output flavor {as is, woff, woff2} x destination {str path, PathLike, file object opened r+b}: table T is loaded and its compile() made to raise during font.save(dest) onto an existing file of known content; "
+    rule = ("every face of every corpus font below the size bound (quick 4 kB non-AOTS incl. the WOFF/WOFF2/TTC files + one AOTS font chosen by the seed; thorough 16 kB) x every table tag T x output flavor {as is, woff, woff2} x reorderTables {True, None, False (sfnt only)} x destination {str path, PathLike, file object opened r+b}: table T is loaded and its compile() made to raise during font.save(dest) onto an existing file of known content; "
             "also faults injected into reorderFontTables, the WOFF zlib / WOFF2 brotli compressor and the writer's close(); and TTCollection.save with a compile fault in each member; whenever save raised, the destination holds exactly the known bytes (file object: nothing written, position unchanged); distinct = each (font, tag|fault, flavor, destination)")
     required_witnesses = ("injected compile fault came out of save", "destination intact after failed save", "flavor woff", "flavor woff2", "file object destination",
-                          "reorderFontTables fault", "compressor fault", "writer close fault", "collection save")
+                          "reorderFontTables fault", "compressor fault", "writer close fault", "collection save", "reorderTables=None", "reorderTables=False")
     chunk = 2
 
     def setup(self, tier, seed):
@@ -1213,6 +1290,16 @@ class SaveCrash(Unit):
                 table.compile = boom
                 n += self.attempt(rec, case, lambda dest: font.save(dest), "compile:%s" % flavor)
                 rec.nontrivial_n(3)
+                # the other two values of reorderTables take different routes to the destination
+                # (None: no reordering pass; False: keep the order of the tables as loaded)
+                for reorder in ((None, False) if flavor == "keep" else (None,)):
+                    font = TTFont(io.BytesIO(data), fontNumber=fn, recalcTimestamp=False)
+                    if flavor != "keep":
+                        font.flavor = flavor
+                    font[tag].compile = boom
+                    n += self.attempt(rec, case, lambda dest: font.save(dest, reorderTables=reorder), "compile:%s:reorderTables=%s" % (flavor, reorder))
+                    rec.nontrivial_n(3)
+                    rec.witness("reorderTables=%s" % reorder)
         elif kind == "global":
             fn = case[2]
             faults = [
